@@ -77,6 +77,22 @@ func (e *Engine) info(fn *ssa.Function) *fnInfo {
 		}
 	}
 	in.n = n
+	var ops []*ssa.Value
+	for _, b := range fn.Blocks {
+		for _, ins := range b.Instrs {
+			ops = ins.Operands(ops[:0])
+			for _, op := range ops {
+				if op == nil || *op == nil {
+					continue
+				}
+				if c, ok := (*op).(*ssa.Const); ok {
+					if _, done := in.consts[c]; !done {
+						in.consts[c] = safeConst(c)
+					}
+				}
+			}
+		}
+	}
 	// stubs, intrinsics, opacity
 	name := in.name
 	if fn.Origin() != nil {
@@ -172,14 +188,13 @@ func constValue(c *ssa.Const) Value {
 func (fr *frame) get(v ssa.Value) Value {
 	switch v := v.(type) {
 	case *ssa.Const:
-		in := fr.info
-		if cv, ok := in.consts[v]; ok {
-			return cv
+		cv, ok := fr.info.consts[v]
+		if !ok {
+			return constValue(v)
 		}
-		cv := constValue(v)
-		fr.th.p.eng.infoMu.Lock()
-		in.consts[v] = cv
-		fr.th.p.eng.infoMu.Unlock()
+		if ce, bad := cv.(constErr); bad {
+			panic(unsupported{ce.what})
+		}
 		return cv
 	case *ssa.Global:
 		return fr.th.p.w.globalAddr(fr.th, v)
@@ -731,6 +746,10 @@ func (th *Thread) exec(fr *frame, ins ssa.Instruction) bool {
 			fr.set(ins, th.callBuiltin(fr, b, &ins.Call, args))
 			break
 		}
+		if p.w.inInit > 0 && fr.fn.Name() == "init" && fr.fn.Synthetic != "" {
+			fr.set(ins, th.initCall(fr, ins))
+			break
+		}
 		fnv, args := th.prepareCall(fr, &ins.Call)
 		fr.set(ins, th.call(fr, fnv, args))
 	case *ssa.ChangeInterface:
@@ -998,6 +1017,9 @@ func (th *Thread) lookup(fr *frame, ins *ssa.Lookup) Value {
 		return th.strIndex(x, fr.get(ins.Index).(*Term), signed)
 	case *Map:
 		vt := ins.X.Type().Underlying().(*types.Map).Elem()
+		if r, done := th.mapGetSym(x, fr.get(ins.Index), vt, ins.CommaOk); done {
+			return r
+		}
 		v, ok := th.mapGet(x, fr.get(ins.Index))
 		if !ok {
 			v = zero(vt)
@@ -1149,4 +1171,43 @@ func wrapBugT(th *Thread, r interface{}) interface{} {
 		return r
 	}
 	return engineBug{val: r, stack: "interpreted stack:\n" + th.stackTrace() + stackString()}
+}
+
+type constErr struct{ what string }
+
+func safeConst(c *ssa.Const) (v Value) {
+	defer func() {
+		if r := recover(); r != nil {
+			if u, ok := r.(unsupported); ok {
+				v = constErr{u.what}
+				return
+			}
+			v = constErr{fmt.Sprint(r)}
+		}
+	}()
+	return constValue(c)
+}
+
+// initCall executes a call made directly by a package initialiser; a Go panic
+// or an unsupported construct inside it yields zero results (recorded) so that
+// the remaining package-level variables are still initialised.
+func (th *Thread) initCall(fr *frame, ins *ssa.Call) (res Value) {
+	w := th.p.w
+	depth, top := th.depth, th.top
+	defer func() {
+		if r := recover(); r != nil {
+			switch r := r.(type) {
+			case *GoPanic:
+				w.res.InitWarnings[fr.fn.Pkg.Pkg.Path()+": panic in initialiser call "+ins.Call.String()+": "+th.panicString(r)]++
+			case unsupported:
+				w.res.InitWarnings[fr.fn.Pkg.Pkg.Path()+": "+r.what]++
+			default:
+				panic(r)
+			}
+			th.depth, th.top = depth, top
+			res = zeroResults(ins.Call.Signature())
+		}
+	}()
+	fnv, args := th.prepareCall(fr, &ins.Call)
+	return th.call(fr, fnv, args)
 }
